@@ -76,7 +76,7 @@ mod verif_c18_state {
         std::mem::forget(bs);
     }
 
-    // @harness id=C18 tier=quick timeout=1500 mem=6 checks=rust
+    // @harness id=C18 tier=quick timeout=1500 mem=10 checks=rust
     // @bounds BarState tick whose draw number 0 fails with an I/O error; pos/len over u64; then a healthy forced draw: no panic, position / length / finished / message exactly as without the failure, the following call works and paints
     #[kani::proof]
     #[kani::unwind(6)]
@@ -85,7 +85,7 @@ mod verif_c18_state {
         one_op(0, 0);
     }
 
-    // @harness id=C18 tier=quick timeout=1500 mem=6 checks=rust
+    // @harness id=C18 tier=quick timeout=1500 mem=10 checks=rust
     // @bounds BarState set_length whose draw number 0 fails with an I/O error; pos/len over u64; then a healthy forced draw: no panic, position / length / finished / message exactly as without the failure, the following call works and paints
     #[kani::proof]
     #[kani::unwind(6)]
@@ -94,7 +94,7 @@ mod verif_c18_state {
         one_op(1, 0);
     }
 
-    // @harness id=C18 tier=quick timeout=1500 mem=6 checks=rust
+    // @harness id=C18 tier=quick timeout=1500 mem=10 checks=rust
     // @bounds BarState set_tab_width whose draw number 0 fails with an I/O error; pos/len over u64; then a healthy forced draw: no panic, position / length / finished / message exactly as without the failure, the following call works and paints
     #[kani::proof]
     #[kani::unwind(6)]
@@ -103,7 +103,7 @@ mod verif_c18_state {
         one_op(2, 0);
     }
 
-    // @harness id=C18 tier=quick timeout=1500 mem=6 checks=rust
+    // @harness id=C18 tier=quick timeout=1500 mem=10 checks=rust
     // @bounds BarState println whose draw number 0 fails with an I/O error; pos/len over u64; then a healthy forced draw: no panic, position / length / finished / message exactly as without the failure, the following call works and paints
     #[kani::proof]
     #[kani::unwind(6)]
@@ -112,7 +112,7 @@ mod verif_c18_state {
         one_op(3, 0);
     }
 
-    // @harness id=C18 tier=quick timeout=1500 mem=6 checks=rust
+    // @harness id=C18 tier=quick timeout=1500 mem=10 checks=rust
     // @bounds BarState suspend whose draw number 0 fails with an I/O error; pos/len over u64; then a healthy forced draw: no panic, position / length / finished / message exactly as without the failure, the following call works and paints
     #[kani::proof]
     #[kani::unwind(6)]
@@ -121,7 +121,7 @@ mod verif_c18_state {
         one_op(4, 0);
     }
 
-    // @harness id=C18 tier=quick timeout=1500 mem=6 checks=rust
+    // @harness id=C18 tier=quick timeout=1500 mem=10 checks=rust
     // @bounds BarState suspend whose draw number 1 fails with an I/O error; pos/len over u64; then a healthy forced draw: no panic, position / length / finished / message exactly as without the failure, the following call works and paints
     #[kani::proof]
     #[kani::unwind(6)]
@@ -130,7 +130,7 @@ mod verif_c18_state {
         one_op(4, 1);
     }
 
-    // @harness id=C18 tier=quick timeout=1500 mem=6 checks=rust
+    // @harness id=C18 tier=quick timeout=1500 mem=10 checks=rust
     // @bounds BarState finish whose draw number 0 fails with an I/O error; pos/len over u64; then a healthy forced draw: no panic, position / length / finished / message exactly as without the failure, the following call works and paints
     #[kani::proof]
     #[kani::unwind(6)]
@@ -139,7 +139,7 @@ mod verif_c18_state {
         one_op(5, 0);
     }
 
-    // @harness id=C18 tier=quick timeout=1500 mem=6 checks=rust
+    // @harness id=C18 tier=quick timeout=1500 mem=10 checks=rust
     // @bounds BarState finish_and_clear whose draw number 0 fails with an I/O error; pos/len over u64; then a healthy forced draw: no panic, position / length / finished / message exactly as without the failure, the following call works and paints
     #[kani::proof]
     #[kani::unwind(6)]
@@ -148,7 +148,7 @@ mod verif_c18_state {
         one_op(6, 0);
     }
 
-    // @harness id=C18 tier=quick timeout=1500 mem=6 checks=rust
+    // @harness id=C18 tier=quick timeout=1500 mem=10 checks=rust
     // @bounds BarState reset whose draw number 0 fails with an I/O error; pos/len over u64; then a healthy forced draw: no panic, position / length / finished / message exactly as without the failure, the following call works and paints
     #[kani::proof]
     #[kani::unwind(6)]
@@ -157,7 +157,7 @@ mod verif_c18_state {
         one_op(7, 0);
     }
 
-    // @harness id=C18 tier=quick timeout=1500 mem=6 checks=rust
+    // @harness id=C18 tier=quick timeout=1500 mem=10 checks=rust
     // @bounds BarState forced_draw whose draw number 0 fails with an I/O error; pos/len over u64; then a healthy forced draw: no panic, position / length / finished / message exactly as without the failure, the following call works and paints
     #[kani::proof]
     #[kani::unwind(6)]
